@@ -277,6 +277,7 @@ func main() {
 			conf := types.Config{Importer: importer.ForCompiler(fset, "source", nil), Error: func(err error) {}}
 			conf.Check(pkg.Name, fset, files, info)
 			e := &ex{info, fset}
+			collectDict(p, files, fset, info)
 			var items []item
 			var skipped []string
 			calls := map[string][]string{}
@@ -557,5 +558,136 @@ func main() {
 			all = append(all, ln)
 		}
 	}
+	writeDict()
 	os.Exit(status)
+}
+
+// ---------------------------------------------------------------------------------------------------------------
+// dictionary: the string, rune and small integer constants that occur in the non-test source of each package (table
+// entries excluded). The generators use them as content fragments and as lengths (go/cmd/harness/gen_dict.go): a value
+// the code compares its input with is exactly the value a random generator never produces.
+
+var dict = map[string]map[string]bool{} // "pkg\tkind" -> values (hex for strings, decimal for ints)
+
+func collectDict(pkg string, files []*ast.File, fset *token.FileSet, info *types.Info) {
+	add := func(kind, v string) {
+		k := pkg + "\t" + kind
+		if dict[k] == nil {
+			dict[k] = map[string]bool{}
+		}
+		dict[k][v] = true
+	}
+	for _, f := range files {
+		if strings.HasSuffix(fset.Position(f.Pos()).Filename, "export_verif.go") {
+			continue
+		}
+		depth := 0
+		var visit func(n ast.Node) bool
+		visit = func(n ast.Node) bool {
+			switch v := n.(type) {
+			case *ast.ImportSpec:
+				return false
+			case *ast.CompositeLit:
+				// a short byte / rune sequence written as a composite literal is a string in disguise ([]byte{0xEF, 0xBB, 0xBF})
+				if tv, ok := info.Types[v]; ok && len(v.Elts) >= 1 && len(v.Elts) <= 48 {
+					var elem types.Type
+					switch t := tv.Type.Underlying().(type) {
+					case *types.Slice:
+						elem = t.Elem()
+					case *types.Array:
+						elem = t.Elem()
+					}
+					if b, ok := elem.(*types.Basic); elem != nil && ok && (b.Kind() == types.Uint8 || b.Kind() == types.Int32) {
+						var sb strings.Builder
+						all := true
+						for _, e := range v.Elts {
+							ev, ok := info.Types[e]
+							if !ok || ev.Value == nil || ev.Value.Kind() != constant.Int {
+								all = false
+								break
+							}
+							x, _ := constant.Int64Val(ev.Value)
+							if b.Kind() == types.Uint8 {
+								sb.WriteByte(byte(x))
+							} else {
+								sb.WriteRune(rune(x))
+							}
+						}
+						if all {
+							add("s", fmt.Sprintf("%x", sb.String()))
+						}
+					}
+				}
+				// tables are not dictionary material (thousands of entries), except short string-only literals
+				if len(v.Elts) > 12 {
+					return false
+				}
+				depth++
+				for _, e := range v.Elts {
+					ast.Inspect(e, visit)
+				}
+				depth--
+				return false
+			case *ast.CallExpr:
+				// messages of errors / panics / formats are not compared with input
+				if sel, ok := v.Fun.(*ast.SelectorExpr); ok {
+					if id, ok := sel.X.(*ast.Ident); ok && (id.Name == "errors" || id.Name == "fmt") {
+						return false
+					}
+				}
+				if id, ok := v.Fun.(*ast.Ident); ok && id.Name == "panic" {
+					return false
+				}
+			case ast.Expr:
+				if tv, ok := info.Types[v]; ok && tv.Value != nil {
+					switch tv.Value.Kind() {
+					case constant.String:
+						sv := constant.StringVal(tv.Value)
+						if len(sv) >= 1 && len(sv) <= 48 {
+							add("s", fmt.Sprintf("%x", sv))
+						}
+						return false
+					case constant.Int:
+						if x, ok := constant.Int64Val(tv.Value); ok {
+							if b, isB := tv.Type.Underlying().(*types.Basic); isB && (b.Kind() == types.Int32 || b.Kind() == types.UntypedRune) && x > 0 && x < 0x110000 {
+								add("s", fmt.Sprintf("%x", string(rune(x)))) // a rune constant
+							}
+							if x >= 2 && x <= 4200 {
+								add("i", fmt.Sprint(x))
+							}
+						}
+						return false
+					}
+				}
+			}
+			return true
+		}
+		ast.Inspect(f, visit)
+	}
+}
+
+func writeDict() {
+	if len(os.Args) < 4 {
+		return
+	}
+	var keys []string
+	for k := range dict {
+		keys = append(keys, k)
+	}
+	sort.Strings(keys)
+	var b strings.Builder
+	for _, k := range keys {
+		var vs []string
+		for v := range dict[k] {
+			vs = append(vs, v)
+		}
+		sort.Strings(vs)
+		for _, v := range vs {
+			fmt.Fprintf(&b, "%s\t%s\n", k, v)
+		}
+	}
+	old, _ := os.ReadFile(os.Args[3])
+	if string(old) != b.String() {
+		os.WriteFile(os.Args[3], []byte(b.String()), 0o644)
+	}
 }
